@@ -16,7 +16,9 @@ pub mod serde_json {
 // opaque stand-ins for the error type, the crate's Result alias and schemars' Metadata
 pub struct Error;
 pub type Result<T> = std::result::Result<T, Error>;
-pub struct Metadata;
+pub struct Metadata {
+    pub default: Option<serde_json::Value>,
+}
 
 // D3: TypeSpace with the five allocator fields only.
 pub struct TypeSpace {
@@ -47,7 +49,6 @@ pub struct ExValue(serde_json::Value);
 pub struct ExError(Error);
 
 #[verifier::external_type_specification]
-#[verifier::external_body]
 pub struct ExMetadata(Metadata);
 
 #[verifier::external_type_specification]
